@@ -140,19 +140,52 @@ def discovered_classes():
 
 
 _USER = {}
+# WHERE a user subclass gets its own one-time result from (which class of its MRO holds the getter): the subclass body,
+# an intermediate base derived from the nitime class, a mix-in derived from ResetMixin, a PLAIN mix-in (object only)
+# listed after / before the nitime class, a plain mix-in of the parent, the parent of a plain mix-in
+USER_SRC = ('body', 'rm-base', 'rm-mixin', 'mixin-after', 'mixin-before', 'grand-mixin', 'mixin-parent')
 
 
-def user_class(klass):
-    """a user subclass that adds its own one-time result (computed from the current input)"""
+def own_class(base, getters, where, name):
+    """the user subclass `name` of `base` whose one-time results `getters` ({name: function}) come from `where`
+    (every helper class is named `name…`)"""
     import nitime.descriptors as desc
-    if klass not in _USER:
+    body = {n: desc.auto_attr(f) for n, f in getters.items()}
+    doc = {'__doc__': 'user subclass with its own one-time result (%s)' % where}
+    if where == 'body':
+        return type(name, (base,), dict(body, **doc))
+    if where == 'rm-base':
+        return type(name, (type(name + 'Mid', (base,), body),), doc)
+    if where == 'rm-mixin':
+        return type(name, (base, type(name + 'RMix', (desc.ResetMixin,), body)), doc)
+    mix = type(name + 'Mix', (object,), body)
+    if where == 'mixin-after':
+        return type(name, (base, mix), doc)
+    if where == 'mixin-before':
+        return type(name, (mix, base), doc)
+    if where == 'grand-mixin':
+        return type(name, (type(name + 'Mid', (base, mix), {}),), doc)
+    if where == 'mixin-parent':
+        return type(name, (type(name + 'Mix2', (mix,), {}), base), doc)
+    raise ValueError(where)
+
+
+def user_src(*parts):
+    """the source of the user subclass's result in a generated session: a fixed function of the session's identity, so
+    that every run meets every source with several classes"""
+    import zlib
+    return USER_SRC[zlib.crc32('/'.join(str(p) for p in parts).encode()) % len(USER_SRC)]
+
+
+def user_class(klass, src='body'):
+    """a user subclass that adds its own one-time result (computed from the current input)"""
+    if (klass, src) not in _USER:
         def own_total(self):
             x = self.__dict__.get('input')
             d = x.data if x is not None else self.data      # GrangerAnalyzer keeps no `input` before set_input
             return float(np.sum(np.real(np.asarray(d))))
-        _USER[klass] = type('Own' + klass.__name__, (klass,), {'own_total': desc.auto_attr(own_total),
-                                                                '__doc__': 'user subclass with its own one-time result'})
-    return _USER[klass]
+        _USER[(klass, src)] = own_class(klass, {'own_total': own_total}, src, 'Own' + klass.__name__)
+    return _USER[(klass, src)]
 
 
 # ============================================================================ child side
@@ -209,7 +242,7 @@ def make_object(seed, bm, spec, shared):
         from nitime.analysis.base import BaseAnalyzer
         return BaseAnalyzer(watched[0]), [watched[0]]
     if kind == 'u':
-        obj.__class__ = user_class(type(obj))
+        obj.__class__ = user_class(type(obj), spec.get('usrc', 'body'))
     return obj, watched
 
 
@@ -325,7 +358,7 @@ def serve_session(req):
                 o, spec = op[1], op[2]
                 if spec['kind'] == 'u':      # creating the user class is not an effect of the library
                     make_object(seed, bm, dict(spec, kind='p'), {})
-                    user_class(type(make_object(seed, bm, dict(spec, kind='p'), {})[0]))
+                    user_class(type(make_object(seed, bm, dict(spec, kind='p'), {})[0]), spec.get('usrc', 'body'))
                     snap = global_snapshot(extra)
                 obj, watched = make_object(seed, bm, spec, shared)
                 objs[o] = {'obj': obj, 'spec': spec, 'x': watched[0] if watched else None}
@@ -736,6 +769,7 @@ def family_sessions(cls, label, table, rng, flavour, tier, foreign):
     has_si = table.get('hasSetInput')
     base = has_si                           # BaseAnalyzer-derived
     P = lambda v=0, kind='p': {'cls': cls, 'label': label, 'kind': kind, 'variant': v}
+    U = lambda v, tag: dict(P(v, 'u'), usrc=user_src(cls, label, tag))     # a user subclass; where its own result comes from varies
     S = []
 
     def some(k):
@@ -760,10 +794,10 @@ def family_sessions(cls, label, table, rng, flavour, tier, foreign):
         # the derived class first, the base class afterwards, a user subclass with its own result last
         ops = [['n', 0, P(0)]] + [['r', 0, g] for g in some(2)] + [sw(0, 2)] + [['r', 0, g] for g in some(3)]
         ops += [['n', 1, P(0, 'b')], ['r', 1, 'parameterlist'], ['i', 1, 1], ['r', 1, 'parameterlist']]
-        ops += [['n', 2, P(0, 'u')], ['r', 2, 'own_total']] + [['r', 2, g] for g in some(2)] + [sw(2, 3), ['r', 2, 'own_total']] + [['r', 2, g] for g in perm(pub)]
+        ops += [['n', 2, U(0, 'derived-first-then-user')], ['r', 2, 'own_total']] + [['r', 2, g] for g in some(2)] + [sw(2, 3), ['r', 2, 'own_total']] + [['r', 2, g] for g in perm(pub)]
         S.append({'cls': cls, 'label': label, 'ops': ops, 'tag': 'derived-first-then-user'})
         # plain class reset first, then the user subclass (its own result must not survive)
-        ops = [['n', 0, P(0)], ['r', 0, pub[0]], ['z', 0], ['n', 1, P(1, 'u')], ['r', 1, 'own_total'], ['r', 1, pub[-1]], sw(1, 2), ['r', 1, 'own_total'], ['r', 1, pub[-1]],
+        ops = [['n', 0, P(0)], ['r', 0, pub[0]], ['z', 0], ['n', 1, U(1, 'class-first-then-user')], ['r', 1, 'own_total'], ['r', 1, pub[-1]], sw(1, 2), ['r', 1, 'own_total'], ['r', 1, pub[-1]],
                ['z', 1], ['r', 1, 'own_total']]
         S.append({'cls': cls, 'label': label, 'ops': ops, 'tag': 'class-first-then-user'})
     if has_si:
@@ -784,7 +818,7 @@ def family_sessions(cls, label, table, rng, flavour, tier, foreign):
     for r in range(nrand):
         objs = [P(0), P(3 if has_si else 1)]
         if base:
-            objs += [P(1, 'u'), P(0, 'b')]
+            objs += [U(1, 'random%d' % r), P(0, 'b')]
         objs.append({'kind': 'm'})
         if foreign:
             f = rng.choice(foreign)
